@@ -141,11 +141,109 @@ class SymBV(int):
 
     __repr__ = __str__
 
+    # Exact integer arithmetic (Python ints do not wrap): operands are sign-/zero-extended to a width in which the result cannot
+    # overflow and the result is a signed SymBV of that width.  Enough for the index / key arithmetic real code does on decoded
+    # fields (e.g. `10 * bank + index`); anything else aborts the path (inconclusive, never a verdict).
+    def _operand(self, o):
+        if isinstance(o, SymBV):
+            return o.bv, o.signed, o.bv.size()
+        if isinstance(o, (SymInt, SymBool)):
+            raise PathAbort("SymBV arithmetic with SymInt")
+        if isinstance(o, bool):
+            o = int(o)
+        if isinstance(o, int):
+            w = int(o).bit_length() + 1
+            return z3.BitVecVal(int(o), w), True, w
+        return None
+
+    def _bin(self, o, op, swap=False):
+        r = self._operand(o)
+        if r is None:
+            return NotImplemented
+        ob, osig, ow = r
+        sw = self.bv.size() + (0 if self.signed else 1)
+        ow = ow + (0 if osig else 1)
+        if op in ("add", "sub"):
+            w = max(sw, ow) + 1
+        elif op == "mul":
+            w = sw + ow
+        else:
+            w = max(sw, ow)
+        if w > 512:
+            raise PathAbort("SymBV arithmetic: width explosion")
+        a, b = _resize(self.bv, self.signed, w), _resize(ob, osig, w)
+        if swap:
+            a, b = b, a
+        e = {"add": lambda: a + b, "sub": lambda: a - b, "mul": lambda: a * b, "and": lambda: a & b, "or": lambda: a | b, "xor": lambda: a ^ b}[op]()
+        return from_bv(e, True)
+
+    def __add__(self, o):
+        return self._bin(o, "add")
+
+    __radd__ = __add__
+
+    def __sub__(self, o):
+        return self._bin(o, "sub")
+
+    def __rsub__(self, o):
+        return self._bin(o, "sub", swap=True)
+
+    def __mul__(self, o):
+        return self._bin(o, "mul")
+
+    __rmul__ = __mul__
+
+    def __and__(self, o):
+        return self._bin(o, "and")
+
+    __rand__ = __and__
+
+    def __or__(self, o):
+        return self._bin(o, "or")
+
+    __ror__ = __or__
+
+    def __xor__(self, o):
+        return self._bin(o, "xor")
+
+    __rxor__ = __xor__
+
+    def __neg__(self):
+        return self._bin(0, "sub", swap=True)
+
+    def __lshift__(self, k):
+        if isinstance(k, (SymBV, SymInt)) or not isinstance(k, int) or k < 0 or k > 128:
+            raise PathAbort("SymBV shift by a non-constant")
+        w = self.bv.size() + (0 if self.signed else 1) + k
+        return from_bv(_resize(self.bv, self.signed, w) << k, True)
+
+    def __rshift__(self, k):
+        if isinstance(k, (SymBV, SymInt)) or not isinstance(k, int) or k < 0:
+            raise PathAbort("SymBV shift by a non-constant")
+        w = self.bv.size() + (0 if self.signed else 1)
+        return from_bv(_resize(self.bv, self.signed, w) >> min(k, w - 1), True)      # arithmetic shift = floor division by 2^k
+
+    def _divmod_const(self, o, want):
+        # floor semantics; only by a positive constant (sign handled by case split on the dividend)
+        if isinstance(o, (SymBV, SymInt)) or not isinstance(o, int) or o <= 0:
+            raise PathAbort("SymBV division by a non-constant or non-positive value")
+        w = max(self.bv.size() + 2, int(o).bit_length() + 2)
+        a, b = _resize(self.bv, self.signed, w), z3.BitVecVal(int(o), w)
+        q, r = a / b, z3.SRem(a, b)                                   # signed, truncating
+        adj = z3.And(r != 0, a < 0)
+        q, r = z3.If(adj, q - 1, q), z3.If(adj, r + b, r)
+        return from_bv(q if want == "q" else r, True)
+
+    def __floordiv__(self, o):
+        return self._divmod_const(o, "q")
+
+    def __mod__(self, o):
+        return self._divmod_const(o, "r")
+
     def _arith(self, *_a):
         raise PathAbort("arithmetic on SymBV is not modelled")
 
-    __add__ = __radd__ = __sub__ = __rsub__ = __mul__ = __rmul__ = _arith
-    __floordiv__ = __mod__ = __and__ = __or__ = __xor__ = __lshift__ = __rshift__ = _arith
+    __rfloordiv__ = __rmod__ = __rlshift__ = __rrshift__ = __truediv__ = __rtruediv__ = __pow__ = __rpow__ = _arith
 
     def __deepcopy__(self, memo):
         return self
@@ -280,6 +378,7 @@ def _make_array(elt, n):
         _real_ = elt._real_ * n
         _type_ = elt
         _length_ = n
+        _elt_size_ = _rc.sizeof(elt._real_)
 
         def __init__(self, *vals):
             if len(vals) > n:
@@ -418,14 +517,30 @@ class Structure(_CData, metaclass=_SMeta):
         for f in type(self)._all_fields_:
             v = self._vals[f.name]
             if f.bits is not None:
+                if type(self)._swapped_:
+                    raise PathAbort("bit-fields of big-endian structures are not modelled")
                 w = 8 * f.size
                 raw = z3.ZeroExt(w - f.bits, v) << f.bitoff
                 for i in range(f.size):
                     out[f.offset + i] = out[f.offset + i] | z3.Extract(8 * i + 7, 8 * i, raw)
             else:
-                for i, b in enumerate(v._to_bvs()):
+                bs_ = v._to_bvs()
+                if type(self)._swapped_:
+                    bs_ = type(self)._swap(f, bs_)
+                for i, b in enumerate(bs_):
                     out[f.offset + i] = b
         return out
+
+    _swapped_ = False
+
+    @staticmethod
+    def _swap(f, bs_):
+        """byte order of one field of a big-endian structure (host is little-endian): scalars reversed, byte arrays unchanged"""
+        if issubclass(f.typ, _Scalar):
+            return list(reversed(bs_))
+        if getattr(f.typ, "_elt_size_", None) == 1:
+            return bs_
+        raise PathAbort("big-endian structure with a field kind the ctypes model does not cover")
 
     @classmethod
     def _from_bvs(cls, bs):
@@ -433,11 +548,28 @@ class Structure(_CData, metaclass=_SMeta):
         for f in cls._all_fields_:
             chunk = bs[f.offset:f.offset + f.size]
             if f.bits is not None:
+                if cls._swapped_:
+                    raise PathAbort("bit-fields of big-endian structures are not modelled")
                 raw = z3.Concat(*reversed(chunk)) if len(chunk) > 1 else chunk[0]
                 o._vals[f.name] = z3.Extract(f.bitoff + f.bits - 1, f.bitoff, raw)
             else:
+                if cls._swapped_:
+                    chunk = cls._swap(f, chunk)
                 o._vals[f.name] = f.typ._from_bvs(chunk)
         return o
+
+
+class BigEndianStructure(Structure):
+    """host byte order is little-endian (asserted at import): multi-byte scalar fields are stored most significant byte first"""
+    _real_ = _rc.BigEndianStructure
+    _swapped_ = True
+
+
+class LittleEndianStructure(Structure):
+    _real_ = _rc.LittleEndianStructure
+
+
+assert sys.byteorder == "little"
 
 
 def sizeof(x):
